@@ -225,9 +225,9 @@ pub fn run(run: &mut Run) {
     ];
     let thorough = run.thorough();
     let sel = if thorough {
-        Sel { m3: true, ep: Some(false), castle: Some(false), promo: Some(false), reach: Some(4), counters: true, m4: Some(crate::universe::M4_SHARDS), hist_counters: Some(2), hist: Some((3, 2)), counts: true, promorow: true, ..Default::default() }
+        Sel { m3: true, ep: Some(false), castle: Some(false), promo: Some(false), reach: Some(4), counters: true, m4: Some(crate::universe::M4_SHARDS), hist_counters: Some(2), hist: Some((3, 2)), hist_discover: true, counts: true, promorow: true, ..Default::default() }
     } else {
-        Sel { m3: true, ep: Some(false), castle: Some(false), promo: Some(false), reach: Some(3), counters: true, hist_counters: Some(1), hist: Some((3, 0)), counts: true, promorow: true, ..Default::default() }
+        Sel { m3: true, ep: Some(false), castle: Some(false), promo: Some(false), reach: Some(3), counters: true, hist_counters: Some(1), hist: Some((3, 0)), hist_discover: true, counts: true, promorow: true, ..Default::default() }
     };
     run_universes(run, &sel, DISAGREE, &check_pos);
     raw_universe(run);
